@@ -90,6 +90,13 @@ func VerifPoolObjects() int {
 	return len(verifObjects)
 }
 
+// VerifZoneCacheLen returns the number of entries of the time-zone cache.
+func VerifZoneCacheLen() int {
+	mutexTimeZones.RLock()
+	defer mutexTimeZones.RUnlock()
+	return reflect.ValueOf(cacheTimeZone).Len()
+}
+
 // VerifZoneCache returns a snapshot of the time-zone cache: key (as text) -> zone name.
 func VerifZoneCache() map[string]string {
 	out := map[string]string{}
